@@ -10,7 +10,7 @@
    Statements, declarations, layout and comments are not modelled: explored by checks/c19.py. *)
 From Coq Require Import List ZArith Bool.
 Import ListNotations.
-From V Require Import Base.Prelude Gen.Tokens Model.Expr Proofs.ExprFuel Proofs.Expr Proofs.ExprImage Proofs.ExprTotal.
+From V Require Import Base.Prelude Gen.Tokens Model.Expr Proofs.ExprFuel Proofs.Expr Proofs.ExprImage Proofs.ExprGen Proofs.ExprTotal.
 Open Scope Z_scope.
 
 (* every tree the parser returns satisfies the hypotheses of the round trip *)
@@ -29,6 +29,13 @@ Theorem C19_print_parse_roundtrip_parsed_partial : forall e,
 Proof.
   intros e V K A. rewrite <- (norm_id (sz e) e (le_n _) A) at 2. now apply roundtrip_lamok_closed.
 Qed.
+
+(* the token-level theorems speak about tokens; that the printed TEXT scans back to these tokens needs a blank wherever two
+   adjacent tokens would otherwise be scanned as one: over the regenerated mayCombine table and the regenerated token spellings,
+   every operator or prefix operator followed by a prefix operator that would glue is separated (also an obligation of C22) *)
+Theorem C19_mayCombine_covers_prefix_operators :
+  forallb (fun t1 => forallb (fun t2 => implb (glues t1 (first_byte t2)) (may_combine t1 (first_byte t2))) prefix_ops) before_ops = true.
+Proof. exact mayCombine_covers. Qed.
 
 (* without the shape of parser output the tree changes: the printer inserts parentheses (a ParenExpr appears) *)
 Theorem C19_needs_parser_shape_refuted :
@@ -58,6 +65,7 @@ Example C19_example_parsed : exists e, parse ex_toks = ROk (PE e) [] /\ dedup e 
   parse (pr (dedup e)) = ROk (PE (dedup e)) [].
 Proof. eexists. vm_compute. repeat split; try reflexivity. discriminate. Qed.
 
+Print Assumptions C19_mayCombine_covers_prefix_operators.
 Print Assumptions C19_parser_image.
 Print Assumptions C19_format_preserves_parsed_tree.
 Print Assumptions C19_print_parse_roundtrip_parsed_partial.
